@@ -200,3 +200,17 @@ class Ctx:
             "reached": sorted(reach),
             "wall_s": time.time() - self.t0,
         }
+
+
+def pure_call(ctx, name, fn, *args, **kw):
+    """Call fn and assert (shadow digest) that no ndarray argument was modified."""
+    arrs = [(i, a) for i, a in enumerate(args) if isinstance(a, np.ndarray)]
+    arrs += [(k, a) for k, a in kw.items() if isinstance(a, np.ndarray)]
+    before = [(digest(a), a.shape, a.dtype, a.strides) for _, a in arrs]
+    out = fn(*args, **kw)
+    for (pos, a), b in zip(arrs, before):
+        ctx.count("argument_shadow_checks")
+        if (digest(a), a.shape, a.dtype, a.strides) != b:
+            ctx.fail("argument_mutated:" + name, "%s modified its argument %r in place" % (name, pos),
+                     {"function": name, "argument": pos})
+    return out
